@@ -80,6 +80,14 @@ def check(case):
         f.add(f"deser-raises/alone/{feat}", r)
     else:
         _compare(f, r[0], r[1], rtx, raw, b"", "alone", "segwit-nonfinal-seq" if "segwit-nonfinal-seq" in feats else "plain")
+        if not f and isinstance(r[0], dict):
+            # the same bytes once more, after the caller has edited the dict it was handed the first time
+            r[0].clear()
+            r2 = attempt(bits.tx.tx_deser, raw, include_raw=True)
+            if raised(r2):
+                f.add("deser-raises/alone-again/plain", r2)
+            else:
+                _compare(f, r2[0], r2[1], rtx, raw, b"", "alone-again-after-caller-edited-earlier-result", "plain")
     # context 2: followed by the buffer
     if trailing:
         r = attempt(bits.tx.tx_deser, raw + trailing, include_raw=True)
@@ -116,7 +124,7 @@ def check(case):
 @st.composite
 def cases(draw):
     # mostly small transactions (ids depend on structure, not size); one in eight from the boundary-length grammar
-    tx = draw(gen_tx.tx_case("small")) if draw(st.integers(0, 7)) else draw(gen_tx.tx_case("full"))
+    tx = draw(gen_tx.tx_case("small")) if draw(st.integers(0, 7)) else draw(gen_tx.tx_case("big"))
     if draw(st.integers(0, 9)) == 0:
         # coinbase-shaped: a single input spending the null outpoint (legacy or with the reserved-value witness)
         tx["ins"] = tx["ins"][:1]
@@ -156,7 +164,7 @@ def _targets(tier):
             check,
             strategy=lambda tier: cases(),
             budget={"quick": 6000, "thorough": 200000},
-            required=["nt:segwit-nonfinal-seq", "nt:trail-1byte-in-tx", "nt:trail-same-tx", "nt:in-block", "nt:block-dup-tx", "nt:trail-in-tx", "nt:coinbase-shaped-segwit", "nt:coinbase-shaped-legacy", "nt:after-related-tx", "nt:script>=253", "nt:wit-item>=253", "nt:wit-item-3000..65533", "nt:n_in>=253"],
+            required=["nt:segwit-nonfinal-seq", "nt:trail-1byte-in-tx", "nt:trail-same-tx", "nt:in-block", "nt:block-dup-tx", "nt:trail-in-tx", "nt:coinbase-shaped-segwit", "nt:coinbase-shaped-legacy", "nt:after-related-tx", "nt:script>=253", "nt:wit-item>=253", "nt:wit-item-3000..65533", "nt:n_in>=253", "nt:script>=65536"],
         )
     ]
 
